@@ -32,6 +32,15 @@ def run_C10(ctx, rep):
     byods_rules.check_L5(ctx, rep, 'eqrel_ternary')
     byods_rules.check_L15(ctx, rep)
     byods_rules.check_L16(ctx, rep, ['union_find'])
+    byods_rules.check_L20(ctx, rep, ['union_find', 'eqrel_ind', 'eqrel_ternary', 'utils'])
+    byods_rules.check_L23(ctx, rep, ['eqrel_ternary', 'eqrel_ind', 'ceqrel_ind'])
+    rep.floor('L23', 5)
+    rep.floor('L20', 2)
+    for sc in ('eqrel_ternary', 'eqrel_ind'):
+        byods_rules.check_L18(ctx, rep, sc)
+        byods_rules.check_L19(ctx, rep, sc)
+    byods_rules.check_L4b(ctx, rep)
+    rep.floor('L19', 1); rep.floor('L4b', 10)
     lib_rules.classify_writers(ctx, rep)
     gen_driver.run_gen(ctx, rep, ['G5', 'G1G3', 'G3r', 'UI'], only_tags=['eqrel'], floors={'G5.merge': 20})
     gen_driver.run_tv(ctx, rep, only_tags=['eqrel'], floors={'R1': 20})
@@ -41,6 +50,17 @@ def run_C11(ctx, rep):
     byods_rules.check_L5(ctx, rep, 'trrel_ternary_ind')
     byods_rules.check_L12(ctx, rep)
     byods_rules.check_L14(ctx, rep, 'trrel_binary_ind')
+    byods_rules.check_L21(ctx, rep, 'trrel_binary_ind')
+    byods_rules.check_L20(ctx, rep, ['binary_rel', 'trrel_binary', 'trrel_binary_ind', 'utils'])
+    byods_rules.check_L23(ctx, rep, ['trrel_binary_ind', 'trrel_ternary_ind', 'trrel_binary', 'binary_rel'])
+    rep.floor('L23', 8)
+    rep.floor('L20', 5)
+    rep.floor('L21', 4)
+    for sc in ('trrel_ternary_ind', 'trrel_binary_ind'):
+        byods_rules.check_L18(ctx, rep, sc)
+        byods_rules.check_L19(ctx, rep, sc)
+    byods_rules.check_L4b(ctx, rep)
+    rep.floor('L19', 2); rep.floor('L18', 2); rep.floor('L4b', 10)
     gen_driver.run_gen(ctx, rep, ['G5', 'G1G3', 'G3r', 'UI'], only_tags=['trrel'], floors={'G5.merge': 20})
     gen_driver.run_tv(ctx, rep, only_tags=['trrel'], floors={'R1': 15})
 
@@ -48,8 +68,19 @@ def run_C11(ctx, rep):
 def run_C12(ctx, rep):
     byods_rules.check_L5(ctx, rep, 'adaptor::bin_rel_to_ternary')
     byods_rules.check_L14(ctx, rep, 'trrel_union_find_binary_ind')
+    byods_rules.check_L21(ctx, rep, 'trrel_union_find_binary_ind')
+    byods_rules.check_L20(ctx, rep, ['trrel_union_find', 'utils'])
+    byods_rules.check_L23(ctx, rep, ['adaptor::bin_rel_to_ternary', 'trrel_union_find_binary_ind'])
+    rep.floor('L23', 10)
+    rep.floor('L20', 4)
+    rep.floor('L21', 4)
     byods_rules.check_L16(ctx, rep, ['trrel_union_find'])
     byods_rules.check_L17(ctx, rep)
+    for sc in ('adaptor::bin_rel_to_ternary', 'adaptor::bin_rel::', 'trrel_union_find_binary_ind'):
+        byods_rules.check_L18(ctx, rep, sc)
+        byods_rules.check_L19(ctx, rep, sc)
+    byods_rules.check_L4b(ctx, rep)
+    rep.floor('L19', 2); rep.floor('L18', 2); rep.floor('L4b', 10)
     gen_driver.run_gen(ctx, rep, ['G5', 'G1G3', 'G3r', 'UI'], only_tags=['trrel_uf'], floors={'G5.merge': 20})
     gen_driver.run_tv(ctx, rep, only_tags=['trrel_uf'], floors={'R1': 15})
 
@@ -87,7 +118,7 @@ def run_C04(ctx, rep):
 
 def run_C15(ctx, rep):
     n = witness_rules.run_witnesses(ctx, rep, ctx.tier)
-    rep.floor('W', 80 if ctx.tier == 'quick' else 350, 'compile witnesses')
+    rep.floor('W', 100 if ctx.tier == 'quick' else 440, 'compile witnesses')
     return {'cov': {'exhaustive': True, 'witness_tier': ctx.tier}}
 
 
@@ -108,7 +139,7 @@ def run_C07(ctx, rep):
 
 
 def run_C08(ctx, rep):
-    gen_driver.run_twins(ctx, rep, lambda n, k: n.replace('_par', '') in ('t_mac_sugar',), floors={'T.L': 2})
+    gen_driver.run_twins(ctx, rep, lambda n, k: n.replace('_par', '') in ('t_mac_sugar', 't_macn_sugar'), floors={'T.L': 4})
     gen_driver.run_tv(ctx, rep, only_tags=['twin'], floors={'R1': 40})
     witness_rules.run_witnesses(ctx, rep, ctx.tier, kinds=('macro_self_rec', 'macro_mutual_rec', 'macro_head_rec'))
     macro_rules.check_M2(ctx, rep)
